@@ -4,6 +4,7 @@ import LoraVerif.Props.TieA.Band
 import LoraVerif.Props.TieA.Rx1Offset
 import LoraVerif.Props.TieA.NewChannel
 import LoraVerif.Props.TieA.HandleMacs
+import LoraVerif.Props.TieA.HandleMacsLoop
 /-!
 # C08 — the module `./check C08` builds: the property theorems (`Props/C08.lean`) together with the
 tie-A equalities between the hand model's constants and the items regenerated from the current
